@@ -463,6 +463,9 @@ type c11CmdCase struct {
 	DashA   bool       `json:"explicit_dash_a"`
 	Gateway bool       `json:"gwmac"`
 	Seed    int64      `json:"rand_seed"`
+	// the 64 addresses come from a target list (-f); next to it the positional argument is absent ("file"), the subnet
+	// ("file+subnet") or one host of it ("file+host"). "" = the subnet argument alone
+	Targets string `json:"targets_from,omitempty"`
 }
 
 const c11Subnet = "10.77.0.0/26"
@@ -565,7 +568,21 @@ func c11CmdCheck(c c11CmdCase) *kit.Verdict {
 	if strings.Fields(c.Cmd)[0] != "icmp" {
 		args = append(args, "-p", "80,443")
 	}
-	args = append(args, c11Subnet)
+	if c.Targets != "" {
+		var sb strings.Builder
+		b0, _ := gram.RefIPv4Target(c11Subnet)
+		for i := uint32(0); i < 64; i++ {
+			fmt.Fprintf(&sb, "{\"ip\":\"%s\"}\n", gram.U32String(b0.Base+i))
+		}
+		args = append(args, "-f", files.write("targets", sb.String()))
+		v.Label("targets=%s", c.Targets)
+	}
+	switch c.Targets {
+	case "", "file+subnet":
+		args = append(args, c11Subnet)
+	case "file+host":
+		args = append(args, "10.77.0.5")
+	}
 	res2 := runCmd(cmdRun{Args: args, Stdin: stdin, Seed: c.Seed, Timeout: 60 * time.Second})
 	line := "sx " + strings.Join(args, " ")
 	if res2.Hung {
@@ -595,6 +612,11 @@ func c11CmdCheck(c c11CmdCase) *kit.Verdict {
 			}
 		}
 	}
+	if c.Targets == "file+subnet" || c.Targets == "file+host" {
+		// which addresses such a combination denotes is not this property's business: every frame that left was judged
+		v.NonTrivial = len(byIP) >= 2 && len(perIP) >= 2
+		return v
+	}
 	nports := 2
 	if strings.Fields(c.Cmd)[0] == "icmp" {
 		nports = 1
@@ -622,10 +644,11 @@ func c11CmdCheck(c c11CmdCase) *kit.Verdict {
 func TestC11Commands(t *testing.T) {
 	kit.Run(t, kit.Spec[c11CmdCase]{
 		Prop: "C11",
-		Rule: "pipeline of two full commands on the virtual wire: 'sx arp --json 10.77.0.0/26' answered by 0..12 generated hosts (some answering twice with different MACs), its stdout used verbatim as the ARP cache (-a file, -a -, or default stdin) of tcp / tcp fin / udp / icmp over the same subnet, with or without --gwmac. Oracle: the second command accepts the cache; the Ethernet destination of every probe = MAC of the last printed line for that probe's own address, else the gateway MAC; without either no frame and one error record per probe. non-trivial: >=2 answering hosts; distinct by case",
+		Rule: "pipeline of two full commands on the virtual wire: 'sx arp --json 10.77.0.0/26' answered by 0..12 generated hosts (some answering twice with different MACs), its stdout used verbatim as the ARP cache (-a file, -a -, or default stdin) of tcp / tcp fin / udp / icmp over the same subnet (given as the argument, as a target list with -f, or as a list next to a subnet or single-host argument), with or without --gwmac. Oracle: the second command accepts the cache; the Ethernet destination of every probe = MAC of the last printed line for that probe's own address, else the gateway MAC; without either no frame and one error record per probe. non-trivial: >=2 answering hosts; distinct by case",
 		Gen: func(t *rapid.T) c11CmdCase {
 			c := c11CmdCase{Cmd: rapid.SampledFrom([]string{"tcp", "tcp fin", "udp", "icmp"}).Draw(t, "cmd"), Stdin: rapid.Bool().Draw(t, "stdin"),
 				Gateway: rapid.Bool().Draw(t, "gw"), Seed: rapid.Int64().Draw(t, "seed"), DashA: rapid.Bool().Draw(t, "dash-a")}
+			c.Targets = rapid.SampledFrom([]string{"", "", "", "file", "file+subnet", "file+host"}).Draw(t, "targets")
 			n := rapid.SampledFrom([]int{0, 1, 2, 5, 12}).Draw(t, "nhosts")
 			used := map[uint32]bool{}
 			for len(c.Hosts) < n {
